@@ -36,7 +36,7 @@ RULE = ("exhaustive: every string over a 13-symbol alphabet {ESC [ 1 ; M < O A ~
         "flush; for the shorter strings additionally a flush at every split point and every chunking; every "
         "ANSI_SEQUENCES key and sample CPR/mouse reports alone and followed by every alphabet symbol; the four "
         "regexes vs the recognisers on all short strings; every byte string over 20 representative byte values up "
-        "to the bound through the real PosixStdinReader (whole / per byte / every 2-split); then seeded random "
+        "to the bound through the real PosixStdinReader (whole / per byte / len 3: every 2-split); then seeded random "
         "streams mixing table keys, CPR / mouse reports (complete, truncated, malformed), paste blocks, control, "
         "printable, non-BMP characters, cut into random reads with random flushes, random (also invalid) byte "
         "strings with random cuts, and valid streams through Vt100Input on a real pipe with the UTF-8 bytes cut "
@@ -46,7 +46,7 @@ EXHAUSTIVE_SCOPE = {
     "quick": "13-symbol alphabet: len<=4 char-by-char+flush; len<=3 flush at every split and all chunkings; "
              "regex differential: full alphabet len<=3, CSI bodies len<=4; bytes: 20 values, len<=3",
     "thorough": "13-symbol alphabet: len<=5 char-by-char+flush; len<=4 flush at every split and all chunkings; "
-                "6-symbol alphabet len<=6 all chunkings; regex differential: full alphabet len<=4, CSI bodies "
+                "6-symbol alphabet len 5 and 4-symbol alphabet len 6 all chunkings; regex differential: full alphabet len<=4, CSI bodies "
                 "len<=5; bytes: 20 values, len<=4"}
 TRUSTED = ["harness/c03.py compares (key, data) of every KeyPress and (in_paste, paste_buffer, generator prefix, "
            "decoder buffer) after every feed/flush/read",
@@ -71,6 +71,7 @@ PASTE_START = "\x1b[200~"
 PASTE_END = "\x1b[201~"
 ALPHA13 = [ESC, "[", "1", ";", "M", "<", "O", "A", "~", "2", "0", "R", "a"]
 ALPHA6 = [ESC, "[", "2", "0", "~", "1"]
+ALPHA4 = [ESC, "[", "1", "~"]
 RE_FULL = [ESC, "[", "1", ";", "M", "m", "<", "R", "\n", "a", "٣", "~"]
 RE_BODY = ["1", ";", "M", "m", "<", "R", "\n", "a", "٣", "~"]
 
@@ -532,9 +533,10 @@ def cases(tier, rng):
                 if n >= 2:
                     yield {"k": "x", "s": s, "m": "ch"}
     if not quick:
-        for n in range(5, 7):
-            for s in all_strings(ALPHA6, n):
-                yield {"k": "x", "s": s, "m": "ch"}
+        for s in all_strings(ALPHA6, 5):
+            yield {"k": "x", "s": s, "m": "ch"}
+        for s in all_strings(ALPHA4, 6):
+            yield {"k": "x", "s": s, "m": "ch"}
     # paste blocks: every chunking of start+body+end+tail for short bodies
     for body in ["", "a", "\x1b", "\x1b[201", "a\x1b[200~"]:
         for tail in ["", "\x1b", "b"]:
@@ -567,7 +569,7 @@ def cases(tier, rng):
         yield {"k": "x", "s": s, "m": "cf"}
         yield {"k": "ops", "ops": [["feed", s], ["flush"]]}
     # 4. random streams, random reads and flushes
-    nrand = 4000 if quick else 120000
+    nrand = 4000 if quick else 60000
     for _ in range(nrand):
         s = rand_stream(rng, rng.choice([1, 2, 3, 5, 8, 20]))
         yield {"k": "ops", "ops": rand_ops(rng, s)}
@@ -598,7 +600,7 @@ def dec_cases(tier, rng):
                 yield {"k": "dec", "chunks": [list(tup)]}
                 if n >= 2:
                     yield {"k": "dec", "chunks": [[b] for b in tup]}
-                    if n >= 3:
+                    if n == 3:
                         yield {"k": "dec", "chunks": [list(tup[:1]), list(tup[1:])]}
                         yield {"k": "dec", "chunks": [list(tup[:2]), list(tup[2:])]}
     for _ in range(400 if quick else 20000):
